@@ -1,9 +1,191 @@
 import BronVerif.Drive.Common
-/-! Driver handlers for C09. -/
+import BronVerif.Model.Bf128
+import BronVerif.Model.OT
+import BronVerif.Model.Rvole
+/-! Driver handlers for C09 (OT correlation, SoftSpoken check, rvole check, bf128). -/
 namespace BronVerif.Drive.C09
-open BronVerif BronVerif.Drive
+open BronVerif BronVerif.Drive BronVerif.Bf128 BronVerif.OT BronVerif.Rvole
 
-def handle (op : String) (_args : List String) (_rhs : String) : Verdict :=
-  .unsupported ("C09 op " ++ op)
+/-! ### parsing / rendering -/
+
+def bytesList? (s : String) : Option (List Nat) :=
+  (hexToBytes? s).map fun b => b.toList.map UInt8.toNat
+
+def bitString? (s : String) : Option (List Bool) :=
+  if s == "-" then some [] else
+  s.toList.mapM fun c => if c == '0' then some false else if c == '1' then some true else none
+
+def byteHex (n : Nat) : String :=
+  String.singleton (hexDigit ((n / 16) % 16)) ++ String.singleton (hexDigit (n % 16))
+
+def bytesHex (bs : List Nat) : String := if bs.isEmpty then "-" else String.join (bs.map byteHex)
+
+/-- a 16-byte big-endian block as the field element (Nat) -/
+def beNat (bs : List Nat) : Nat := bs.foldl (fun acc b => acc * 256 + b) 0
+
+def natBE16 (n : Nat) : List Nat := (List.range 16).map fun i => (n >>> (8 * (15 - i))) % 256
+
+/-- the 128-bit blocks of a packed row, as field elements (`FromBytes` of each 16-byte slice) -/
+def blocksOfBits (bs : List Bool) : List BF := (chunk (pack bs) 16).map fun c => ⟨beNat c⟩
+
+def rowsOf? (s : String) : Option (List (List Bool)) := (splitComma s).mapM fun r => (bytesList? r).map unpack
+
+def rowsHex (rows : List (List Bool)) : String := joinComma (rows.map fun r => bytesHex (pack r))
+
+def bfList? (s : String) : Option (List BF) := (parseNatList? s).map fun xs => xs.map BF.mk
+
+def bf16Hex (x : BF) : String := bytesHex (natBE16 x.val)
+
+/-! ### handlers -/
+
+def handleBf (op : String) (args : List String) (rhs : String) : Verdict :=
+  match op, args.mapM hexToNat? with
+  | "bfmul", some [a, b] => spec "bf128-mul" (natToHex (mul a b)) rhs
+  | "bfadd", some [a, b] => spec "bf128-add" (natToHex (add a b) ++ ";" ++ natToHex (add a b) ++ ";" ++ natToHex a) rhs
+  | "bfinv", some [a] => spec "bf128-inv" (if a = 0 then "err:zero" else natToHex (inv a)) rhs
+  | "bfdiv", some [a, b] => spec "bf128-div" (if b = 0 then "err:zero" else natToHex (mul a (inv b))) rhs
+  | "bfmisc", some [a, b] =>
+    spec "bf128-misc" (bytesHex (natBE16 a) ++ ";" ++ natToHex (mul a a) ++ ";" ++ natToHex a ++ ";" ++ natToHex b) rhs
+  | _, _ => .unsupported ("C09 " ++ op)
+
+def handleBits (op : String) (args : List String) (rhs : String) : Verdict :=
+  match op, args with
+  | "bitspack", [s] =>
+    match bytesList? s with
+    | none => .unsupported "args"
+    | some raw =>
+      let model := if raw.any (· > 1) then "reject" else
+        let p := pack (raw.map (· == 1))
+        bytesHex p ++ ";" ++ bytesHex ((unpack p).map fun b => if b then 1 else 0)
+      spec "bits-pack" model rhs
+  | "bitsrepeat", [s, ns] =>
+    match bytesList? s, ns.toNat? with
+    | some p, some n => spec "bits-repeat" (bytesHex (pack (repeatBits (unpack p) n))) rhs
+    | _, _ => .unsupported "args"
+  | "bitstranspose", [_rs, cs, ms] =>
+    match cs.toNat?, rowsOf? ms with
+    | some cb, some rows => spec "bits-transpose" (rowsHex (transpose rows (8 * cb))) rhs
+    | _, _ => .unsupported "args"
+  | _, _ => .unsupported ("C09 " ++ op)
+
+/-- `ot <proto> <curve> <xi> <l> <choices> => ok:<s0>|<s1>|<recv>` -/
+def handleOt (args : List String) (rhs : String) : Verdict :=
+  match args with
+  | [_proto, _curve, xis, ls, cs] =>
+    match xis.toNat?, ls.toNat?, bitString? cs with
+    | some xi, some l, some choices =>
+      if !rhs.startsWith "ok:" then .diff "ok:…" else
+      match ((rhs.drop 3).toString).splitOn "|" with
+      | [a, b, r] =>
+        let s0 := splitComma a; let s1 := splitComma b; let recv := splitComma r
+        if choices.length ≠ xi ∨ s0.length ≠ xi * l then .bad "ot-shape" "wrong number of outputs" else
+        if correlated s0 s1 recv (repeatBits choices l) then .ok
+        else .bad "ot-correlation" "recv[i] ≠ send[i][choice_i] or send[i][0] = send[i][1] for some instance"
+      | _ => .unsupported "rhs"
+    | _, _, _ => .unsupported "args"
+  | _ => .unsupported "args"
+
+/-- `ssrecv xi l choices sigma chi t0 t1 => U;X;T` : Receiver.Round1 as a function -/
+def handleSsRecv (args : List String) (rhs : String) : Verdict :=
+  match args with
+  | [_xi, ls, cs, sig, chis, t0s, t1s] =>
+    match ls.toNat?, bitString? cs, bytesList? sig, bfList? chis, rowsOf? t0s, rowsOf? t1s with
+    | some l, some choices, some sigma, some chi, some t0, some t1 =>
+      let x' := repeatBits choices l ++ unpack sigma
+      let us := List.zipWith (fun a b => receiverU a b x') t0 t1
+      let X := lin chi (blocksOfBits x')
+      let T := t0.map fun r => lin chi (blocksOfBits r)
+      mirror (rowsHex us ++ ";" ++ bf16Hex X ++ ";" ++ joinComma (T.map bf16Hex)) rhs
+    | _, _, _, _, _, _ => .unsupported "args"
+  | _ => .unsupported "args"
+
+/-- `sssend xi l delta tb chi U X T => ok|abort` : Sender.Round2's consistency check -/
+def handleSsSend (args : List String) (rhs : String) : Verdict :=
+  match args with
+  | [_xi, _l, ds, tbs, chis, us, xs, ts] =>
+    match bitString? ds, rowsOf? tbs, bfList? chis, rowsOf? us, hexToNat? xs, bfList? ts with
+    | some delta, some tb, some chi, some u, some x, some t =>
+      if tb.length ≠ delta.length ∨ u.length ≠ delta.length then .unsupported "shape" else
+      let qs := (delta.zip (tb.zip u)).map fun (d, b, w) => blocksOfBits (senderQ d b w)
+      let model := if ssVerify chi ⟨x⟩ delta qs t then "ok" else "abort"
+      if model == rhs then .ok
+      else if rhs == "ok" then .bad "softspoken-check-accepted" "sender accepted a response that fails q̇ = ṫ + Δ·ẋ"
+      else .diff model
+    | _, _, _, _, _, _ => .unsupported "args"
+  | _ => .unsupported "args"
+
+def handleRvole (args : List String) (rhs : String) : Verdict :=
+  match args with
+  | [_variant, _curve, ps, ls, as] =>
+    match hexToNat? ps, ls.toNat?, parseNatList? as with
+    | some p, some l, some a => withPrime p (.unsupported "p=0") fun q =>
+      if !rhs.startsWith "ok:" then .diff "ok:…" else
+      match ((rhs.drop 3).toString).splitOn ";" with
+      | [bs, cs, ds] =>
+        match hexToNat? bs, parseNatList? cs, parseNatList? ds with
+        | some b, some c, some d =>
+          let aq : List (Fp q) := fpList a
+          let bq : Fp q := Fp.ofNat q b
+          let sums : List (Fp q) := List.zipWith (· + ·) (fpList c) (fpList d)
+          if a.length ≠ l ∨ c.length ≠ l ∨ d.length ≠ l then .bad "rvole-shape" "wrong output length"
+          else spec "rvole-product" (fpHexList (aq.map (· * bq))) (fpHexList sums)
+        | _, _, _ => .unsupported "rhs"
+      | _ => .unsupported "rhs"
+    | _, _, _ => .unsupported "args"
+  | _ => .unsupported "args"
+
+instance {p : Nat} : DecidableEq (Vec (Fp p)) := fun a b =>
+  if h : a.xs = b.xs then isTrue (by cases a; cases b; simp_all) else isFalse (fun e => h (by rw [e]))
+
+/-- `rvchk p xi l rho g beta alpha0 alpha1 a ahat theta aTilde' eta' theta' muflag => c;ok:d | c;abort` -/
+def handleRvchk (args : List String) (rhs : String) : Verdict :=
+  match args with
+  | [ps, xis, ls, rhos, gs, bs, a0s, a1s, as, ahs, ths, ats, etas, thps, mfs] =>
+    match hexToNat? ps, xis.toNat?, ls.toNat?, rhos.toNat?, parseNatList? gs, bitString? bs,
+          parseNatList? a0s, parseNatList? a1s, parseNatList? (as), parseNatList? ahs with
+    | some p, some xi, some l, some rho, some g, some beta, some a0, some a1, some a, some ah =>
+      match parseNatList? ths, parseNatList? ats, parseNatList? etas, parseNatList? thps, mfs.toNat? with
+      | some th, some at', some eta, some thp, some mf => withPrime p (.unsupported "p=0") fun q =>
+        let L := l + rho
+        if g.length ≠ xi ∨ beta.length ≠ xi ∨ a0.length ≠ xi * L ∨ a1.length ≠ xi * L ∨ at'.length ≠ xi * L
+            ∨ a.length ≠ l ∨ ah.length ≠ rho ∨ eta.length ≠ rho ∨ th.length ≠ l * rho ∨ thp.length ≠ l * rho then
+          .unsupported "shape" else
+        let rows (xs : List Nat) : List (Vec (Fp q)) := (chunk (fpList xs) L).map Vec.mk
+        let insts : List (Inst (Fp q) (Vec (Fp q))) :=
+          (List.zip (fpList g) (List.zip beta (List.zip (rows a0) (rows a1)))).map
+            fun (gj, bj, x0, x1) => { g := gj, beta := bj, a0 := x0, a1 := x1 }
+        let Θ := thetaMap l rho (chunk (fpList (p := q) th) rho)
+        let Θ' := thetaMap l rho (chunk (fpList (p := q) thp) rho)
+        let recvd := insts.zip (rows at')
+        let etaV : Vec (Fp q) := ⟨fpList eta⟩
+        let c := (Vec.norm L (aliceC insts)).take l
+        let d := (Vec.norm L (bobD recvd)).take l
+        let acc := accepts Θ Θ' etaV recvd && mf == 0
+        let model := fpHexList c ++ ";" ++ (if acc then "ok:" ++ fpHexList d else "abort")
+        if model == rhs then .ok
+        else if !acc && (rhs.splitOn ";ok:").length == 2 then
+          .bad "rvole-check-accepted" "Bob accepted check values with μ' ≠ μ (or an altered μ digest)"
+        else .diff (if model.length > 200 then (model.take 200).toString ++ "…" else model)
+      | _, _, _, _, _ => .unsupported "args"
+    | _, _, _, _, _, _, _, _, _, _ => .unsupported "args"
+  | _ => .unsupported "args"
+
+/-- `fault … => abort@k | reject@k | completed` : implementation-side oracle (no model needed) -/
+def handleFault (rhs : String) : Verdict :=
+  if rhs.startsWith "abort" || rhs.startsWith "reject" then .ok
+  else if rhs == "completed" then .bad "tamper-accepted" "a run with an altered consistency-check field completed"
+  else .diff "abort"
+
+def handle (op : String) (args : List String) (rhs : String) : Verdict :=
+  match op with
+  | "bfmul" | "bfadd" | "bfinv" | "bfdiv" | "bfmisc" => handleBf op args rhs
+  | "bitspack" | "bitsrepeat" | "bitstranspose" => handleBits op args rhs
+  | "ot" => handleOt args rhs
+  | "ssrecv" => handleSsRecv args rhs
+  | "sssend" => handleSsSend args rhs
+  | "rvole" => handleRvole args rhs
+  | "rvchk" => handleRvchk args rhs
+  | "fault" => handleFault rhs
+  | _ => .unsupported ("C09 op " ++ op)
 
 end BronVerif.Drive.C09
